@@ -156,12 +156,15 @@ Definition spec_step (abs : pmap) (o : hop) : pmap * bool :=
 (* ---- the sampler's table (xyzpy Sampler): rows appended, synced the same way ---- *)
 Definition table := list (list Z).
 Record sst := mk_sst { s_mem : option table; s_file : option table }.
-Inductive sop := SAdd (rows : table) (sync : bool) | SNewSession | SExtAdd (rows : table).
+Inductive sop := SAdd (rows : table) (sync : bool) | SNewSession | SExtAdd (rows : table)
+               | SAddFail (rows : table).     (* a synced run whose table write fails (disk full, unstorable value) *)
 Definition sstep (s : sst) (o : sop) : sst :=
   match o with
   | SNewSession => mk_sst None (s_file s)
   | SExtAdd rows =>      (* another sampler object on the same file appended its rows *)
       mk_sst (s_mem s) (Some (match s_file s with Some t => (t ++ rows)%list | None => rows end))
+  | SAddFail _ =>        (* the file was re-read; nothing else changes: the rows are in neither table *)
+      mk_sst (match s_file s with Some t => Some t | None => s_mem s end) (s_file s)
   | SAdd rows sync =>
       let mem := if sync then match s_file s with Some t => Some t | None => s_mem s end else s_mem s in
       let full := match mem with None => rows | Some t => t ++ rows end in
